@@ -112,13 +112,64 @@ type GCShape6 struct {
 	L  []GCTick                     `json:"l"`
 }
 
+// map values (small and large) that are structs: freshly allocated memory (a slice, a byte string, a string, a
+// pointee) is decoded BEFORE a field whose codec forces a collection, and the value reaches the map only afterwards
+type GCVal struct {
+	A []int64 `json:"a"`
+	T GCTick  `json:"t"`
+	S string  `json:"s"`
+	P *int64  `json:"p"`
+}
+type GCValBig struct {
+	B  []byte            `json:"b"`
+	L  []string          `json:"l"`
+	T  GCTick            `json:"t"`
+	M  map[string]string `json:"m"`
+	F  int64             `json:"f"`
+	T2 GCTick            `json:"t2"`
+}
+type GCShape7 struct {
+	M  map[string]GCVal    `json:"m"`
+	MB map[string]GCValBig `json:"mb"`
+	L  []GCVal             `json:"l"`
+	PV *GCVal              `json:"pv"`
+}
+
+// gcFatten makes sure the collections inside GCShape7's map values are big enough to be heap objects of their own
+// (objects under 16 bytes share allocator blocks and are not freed one by one)
+func gcFatten(rng interface{ Intn(int) int }, vals []reflect.Value) {
+	for _, v := range vals {
+		s7, ok := v.Addr().Interface().(*GCShape7)
+		if !ok {
+			return
+		}
+		if s7.M == nil {
+			s7.M = map[string]GCVal{}
+		}
+		for i := 0; i < 4; i++ {
+			a := make([]int64, 12+rng.Intn(30))
+			for j := range a {
+				a[j] = int64(1000*i + j)
+			}
+			x := int64(i)
+			s7.M[fmt.Sprintf("k%d", i)] = GCVal{A: a, T: GCTick(i), S: fmt.Sprintf("string number %d of some length", i), P: &x}
+		}
+		if s7.MB == nil {
+			s7.MB = map[string]GCValBig{}
+		}
+		for i := 0; i < 3; i++ {
+			s7.MB[fmt.Sprintf("b%d", i)] = GCValBig{B: bytes.Repeat([]byte{byte(i + 1)}, 100), L: []string{"one long string in a list", "and another one"}, T: GCTick(i), M: map[string]string{"k": "v"}, T2: 5}
+		}
+	}
+}
+
 func init() {
 	avro.Register(reflect.TypeOf(GCTick(0)), func(s avro.Schema, t reflect.Type, omit bool) (avro.Codec, error) { return gcTickCodec{}, nil })
 	avro.RegisterSchema(reflect.TypeOf(GCTick(0)), avro.Schema{Type: "long"})
 }
 
 func gcShapes() []rtCase {
-	return []rtCase{staticOf[GCShape5]("GCShape5"), staticOf[GCShape6]("GCShape6"), staticOf[GCShape1]("GCShape1"), staticOf[GCShape2]("GCShape2"), staticOf[GCShape3]("GCShape3"), staticOf[GCShape4]("GCShape4"),
+	return []rtCase{staticOf[GCShape5]("GCShape5"), staticOf[GCShape6]("GCShape6"), staticOf[GCShape7]("GCShape7"), staticOf[GCShape1]("GCShape1"), staticOf[GCShape2]("GCShape2"), staticOf[GCShape3]("GCShape3"), staticOf[GCShape4]("GCShape4"),
 		staticOf[SColl]("SColl"), staticOf[SPtr]("SPtr"), staticOf[STime]("STime")}
 }
 
@@ -190,10 +241,13 @@ func gcChild(args []string) int {
 	for round := 0; round < rounds; round++ {
 		for si, sh := range gcShapes() {
 			vals := genValues(c.rng, sh.typ, 2+c.rng.Intn(4))
+			gcFatten(c.rng, vals)
 			codec := codecs3[(round+si)%3]
 			cfg := rtConfig{Codec: codec, Block: []int{0, 50, 1 << 20}[(round+si)%3], Flush: map[int]bool{}}
 			w := &recWriter{}
 			if err, p := safeMake(sh.mk, w, cfg, vals); err != nil || p != "" {
+				// a shape that cannot even be written is reported, not dropped
+				enc.Encode(gcResult{Shape: sh.name, Codec: codec, Mode: "decode", Inputs: []any{}, Delivered: []any{}, After: []any{}, Err: "cannot write the file: " + errString(err) + p})
 				continue
 			}
 			res := gcResult{Shape: sh.name, Codec: codec, Mode: "decode"}
@@ -250,6 +304,7 @@ func gcChild(args []string) int {
 				continue
 			}
 			v := genValues(c.rng, sh.typ, 1)[0]
+			gcFatten(c.rng, []reflect.Value{v})
 			wb := avro.NewWriteBuf(nil)
 			codec.Write(wb, v.Addr().UnsafePointer())
 			data := append([]byte{}, wb.Bytes()...)
